@@ -102,6 +102,13 @@ impl Searcher {
             }
         }
 
+        // The budget can expire before even depth 1 completes (tiny move time,
+        // a clock inside the reserve, an exploding quiescence search). Still
+        // answer with a legal move instead of no move at all.
+        if best_move.is_none() {
+            best_move = self.move_generator.generate_moves(board).first().copied();
+        }
+
         (best_score, best_move)
     }
 
